@@ -33,6 +33,20 @@ package main
 //     (io.ReadFull / Read / ReadFromUDP fill it, Write / WriteToUDP / binary.*.UintN / PutUintN read or fill it;
 //     none keeps the slice: io.Reader and io.Writer forbid it).
 
+//   - "loop body split into methods of the same receiver".  `for … { … r.m(args) … }` inside a method with receiver
+//     `r` of type T, where `m` is a method declared on T or *T in the package, is read as if the body of `m` stood at
+//     the call, one question at a time: (a) the loop is a receive loop if such a method reads a socket (followed like
+//     package functions, at most four deep); (b) a method that receives the loop buffer must not retain it — the same
+//     nonRetaining test as for package functions, on the method's parameter (a window `p[a:b]` of the parameter handed
+//     to a package function is tested like the parameter itself); its result is then a value decoded from the buffer;
+//     (c) a method called from the loop body must not contain a `go` statement (the spawn count and the sharing
+//     question are asked of the loop's own `go` statements only): refused with an error.
+//   - "quit test as a method".  `func (r *T) closed() bool { select { case <-r.quit: return true; default: return false } }`
+//     is the non-blocking test of the canonical first statement `select { case <-quit: return; default: … }`.  Accepted
+//     as checksQuit: `for !r.closed() { … }` when the `for` is the last statement of the function (leaving the loop is
+//     returning; one `return …` may follow it) and `if r.closed() { return … }` as the first statement of the loop body.  The method must have exactly
+//     that body: a receive without `default` would block, other results would invert the test.
+
 import (
 	"fmt"
 	"go/ast"
@@ -45,6 +59,117 @@ import (
 )
 
 func init() { facts["ServerFacts"] = serverFacts }
+
+// sfRecv: base type name and receiver name of a method declaration ("" for functions / unnamed receivers)
+func sfRecv(fd *ast.FuncDecl) (string, string) {
+	if fd.Recv == nil || len(fd.Recv.List) != 1 || len(fd.Recv.List[0].Names) != 1 {
+		return "", ""
+	}
+	t := fd.Recv.List[0].Type
+	if st, ok := t.(*ast.StarExpr); ok {
+		t = st.X
+	}
+	id, ok := t.(*ast.Ident)
+	if !ok {
+		return "", ""
+	}
+	return id.Name, fd.Recv.List[0].Names[0].Name
+}
+
+// sfOwnMethod: `r.m(…)` with r the receiver of `in` and m a method of the same base type; returns its key in pkgFuncs
+func sfOwnMethod(c *ast.CallExpr, in *ast.FuncDecl, fs pkgFuncs) (string, bool) {
+	typ, recv := sfRecv(in)
+	sel, ok := c.Fun.(*ast.SelectorExpr)
+	if !ok || typ == "" {
+		return "", false
+	}
+	id, ok := sel.X.(*ast.Ident)
+	if !ok || id.Name != recv {
+		return "", false
+	}
+	key := typ + "." + sel.Sel.Name
+	_, ok = fs[key]
+	return key, ok
+}
+
+// sfStartsGoroutine: the body contains a `go` statement, or calls (by plain name, or on its own receiver) a function of
+// the package that does, at most four deep
+func sfStartsGoroutine(fd *ast.FuncDecl, fs pkgFuncs, depth int) bool {
+	found := false
+	ast.Inspect(fd.Body, func(m ast.Node) bool {
+		switch x := m.(type) {
+		case *ast.GoStmt:
+			found = true
+		case *ast.CallExpr:
+			if depth >= 4 {
+				return true
+			}
+			if key, ok := sfOwnMethod(x, fd, fs); ok && sfStartsGoroutine(fs[key], fs, depth+1) {
+				found = true
+			}
+			if id, ok := x.Fun.(*ast.Ident); ok {
+				if g, ok := fs[id.Name]; ok && g != fd && sfStartsGoroutine(g, fs, depth+1) {
+					found = true
+				}
+			}
+		}
+		return !found
+	})
+	return found
+}
+
+// sfLoopIsTail: the `for` is the last statement of the function, or only one `return …` follows it: leaving the loop
+// is returning from the function
+func sfLoopIsTail(fd *ast.FuncDecl, x *ast.ForStmt) bool {
+	l := fd.Body.List
+	for i, st := range l {
+		if st == ast.Stmt(x) {
+			if i == len(l)-1 {
+				return true
+			}
+			_, isRet := l[i+1].(*ast.ReturnStmt)
+			return i == len(l)-2 && isRet
+		}
+	}
+	return false
+}
+
+// sfClosedTest: the body is exactly `select { case <-X: return true; default: return false }` (normalisation "quit test
+// as a method")
+func sfClosedTest(fd *ast.FuncDecl) bool {
+	if fd.Type.Params.NumFields() != 0 || len(fd.Body.List) != 1 {
+		return false
+	}
+	sel, ok := fd.Body.List[0].(*ast.SelectStmt)
+	if !ok || len(sel.Body.List) != 2 {
+		return false
+	}
+	retIs := func(body []ast.Stmt, want string) bool {
+		if len(body) != 1 {
+			return false
+		}
+		r, ok := body[0].(*ast.ReturnStmt)
+		if !ok || len(r.Results) != 1 {
+			return false
+		}
+		id, ok := r.Results[0].(*ast.Ident)
+		return ok && id.Name == want
+	}
+	recvOK, defOK := false, false
+	for _, c := range sel.Body.List {
+		cc := c.(*ast.CommClause)
+		if cc.Comm == nil {
+			defOK = retIs(cc.Body, "false")
+			continue
+		}
+		if es, ok := cc.Comm.(*ast.ExprStmt); ok {
+			if ue, ok := es.X.(*ast.UnaryExpr); ok && ue.Op == token.ARROW {
+				recvOK = retIs(cc.Body, "true")
+			}
+		}
+	}
+	return recvOK && defOK
+}
 
 type goSpawn struct {
 	Callee           string `json:"callee"`
@@ -171,7 +296,7 @@ func nonRetaining(fs pkgFuncs, name string, idx int, visiting map[string]bool) e
 						return true
 					}
 				default:
-					if !sliced { // passing p itself to a function of the package
+					{ // passing p itself, or a window of it, to a function of the package
 						for ai, a := range par.Args {
 							if a == cur {
 								if e := nonRetaining(fs, fid.Name, ai, visiting); e != nil {
@@ -239,6 +364,8 @@ func serverFacts(repo string) (string, any, error) {
 					decls = append(decls, fileDecl{fd, fn})
 					if fd.Recv == nil {
 						fs[fd.Name.Name] = fd
+					} else if typ, _ := sfRecv(fd); typ != "" {
+						fs[typ+"."+fd.Name.Name] = fd // methods: a dotted key cannot collide with a function name
 					}
 				}
 			}
@@ -273,7 +400,7 @@ func serverFacts(repo string) (string, any, error) {
 						}
 					}
 				case *ast.ForStmt:
-					reads := readsSocket(x.Body, fs, 0)
+					reads := readsSocket(x.Body, fs, 0, fd)
 					if !reads {
 						continue
 					}
@@ -295,6 +422,26 @@ func serverFacts(repo string) (string, any, error) {
 										}
 									}
 								}
+							}
+						}
+					}
+					// "quit test as a method"
+					isClosedCall := func(e ast.Expr) bool {
+						c, ok := e.(*ast.CallExpr)
+						if !ok || len(c.Args) != 0 {
+							return false
+						}
+						key, ok := sfOwnMethod(c, fd, fs)
+						return ok && sfClosedTest(fs[key])
+					}
+					if ue, ok := x.Cond.(*ast.UnaryExpr); ok && ue.Op == token.NOT && x.Init == nil && x.Post == nil &&
+						isClosedCall(ue.X) && sfLoopIsTail(fd, x) {
+						lp.ChecksQuit = true
+					}
+					if len(x.Body.List) > 0 {
+						if is, ok := x.Body.List[0].(*ast.IfStmt); ok && is.Init == nil && is.Else == nil && isClosedCall(is.Cond) && len(is.Body.List) == 1 {
+							if _, ok := is.Body.List[0].(*ast.ReturnStmt); ok {
+								lp.ChecksQuit = true
 							}
 						}
 					}
@@ -346,6 +493,20 @@ func serverFacts(repo string) (string, any, error) {
 													decoded[target.Name] = f.Name
 													delete(tainted, target.Name)
 												case *ast.SelectorExpr:
+													if key, ok := sfOwnMethod(call, fd, fs); ok {
+														// a method of the loop's receiver: must not retain, like a package function
+														for ai, a := range call.Args {
+															if aliases(a) {
+																if e := nonRetaining(fs, key, ai, map[string]bool{}); e != nil {
+																	ferr = fmt.Errorf("%s: %s receives the loop buffer: %v", fset.Position(call.Pos()), key, e)
+																	return false
+																}
+															}
+														}
+														decoded[target.Name] = key
+														delete(tainted, target.Name)
+														break
+													}
 													switch f.Sel.Name {
 													case "ReadFromUDP", "Read", "ReadFull", "Uint16", "Uint32", "Write", "WriteToUDP":
 														delete(tainted, target.Name) // stdlib: fills / reads the buffer, returns scalars
@@ -359,6 +520,14 @@ func serverFacts(repo string) (string, any, error) {
 											}
 										}
 									}
+								}
+							}
+						case *ast.CallExpr:
+							if key, ok := sfOwnMethod(s, fd, fs); ok {
+								hasGo := sfStartsGoroutine(fs[key], fs, 0)
+								if hasGo {
+									ferr = fmt.Errorf("%s: %s, called from the receive loop, starts a goroutine: spawns inside a helper of the loop are not followed", fset.Position(s.Pos()), key)
+									return false
 								}
 							}
 						case *ast.GoStmt:
@@ -490,8 +659,9 @@ func serverFacts(repo string) (string, any, error) {
 	return b.String(), map[string]any{"loops": loops, "stops": stops}, nil
 }
 
-// readsSocket: the node contains a socket read, or a call by plain name of a package-level function that does
-func readsSocket(n ast.Node, fs pkgFuncs, depth int) bool {
+// readsSocket: the node contains a socket read, or a call by plain name of a package-level function that does, or a
+// call `r.m(…)` of a method of the receiver of `in` (the function the node belongs to) that does
+func readsSocket(n ast.Node, fs pkgFuncs, depth int, in *ast.FuncDecl) bool {
 	reads := false
 	ast.Inspect(n, func(m ast.Node) bool {
 		c, ok := m.(*ast.CallExpr)
@@ -503,9 +673,13 @@ func readsSocket(n ast.Node, fs pkgFuncs, depth int) bool {
 			switch f.Sel.Name {
 			case "ReadFromUDP", "Accept", "ReadFull":
 				reads = true
+			default:
+				if key, ok := sfOwnMethod(c, in, fs); ok && depth < 4 && readsSocket(fs[key].Body, fs, depth+1, fs[key]) {
+					reads = true
+				}
 			}
 		case *ast.Ident:
-			if fd, ok := fs[f.Name]; ok && depth < 4 && readsSocket(fd.Body, fs, depth+1) {
+			if fd, ok := fs[f.Name]; ok && depth < 4 && readsSocket(fd.Body, fs, depth+1, fd) {
 				reads = true
 			}
 		}
